@@ -4,7 +4,7 @@ import gen_http as G
 
 HARNESS = "rx_driver"
 LEAN_MODULES = ["ViaProofs.C08", "ViaProofs.Roundtrip"]
-LEMMA_MODULES = ['ViaProofs.Trans.RL', 'ViaProofs.Trans.SL', 'ViaProofs.Trans.FL', 'ViaProofs.Trans.CH', 'ViaProofs.Trans.MH', 'ViaProofs.Trans.CK']
+LEMMA_MODULES = ['ViaProofs.Trans.RL', 'ViaProofs.Trans.SL', 'ViaProofs.Trans.FL', 'ViaProofs.Trans.CH', 'ViaProofs.Trans.MH', 'ViaProofs.Trans.CK', 'ViaProofs.Trans.RQ', 'ViaProofs.Trans.RR', 'ViaProofs.Trans.RS']
 REQUIRED_THEOREMS = ['Via.hex_roundtrip', 'Via.dec_roundtrip', 'Via.std_names_parse', 'Via.own_headers_parse', 'Via.chunk_header_roundtrip',
                      'Via.RT.requestLine_roundtrip', 'Via.RT.headerLine_roundtrip', 'Via.RT.headers_roundtrip', 'Via.RT.request_roundtrip',
                      'Via.RT.statusLine_roundtrip', 'Via.RT.response_roundtrip', 'Via.RT.response_roundtrip_nocontent',
@@ -18,7 +18,7 @@ RULE = ("requests / responses / chunks / last-chunks built through tx_request, t
         "and fed to a receiver whose limits admit them; the expected start line, header map, framing and payload follow from "
         "the components; messages whose Content-Length the application states itself next to fields that only mention a framing "
         "header in their name or value; hex/dec number round trips; distinct = distinct component tuple; all are non-trivial")
-TRUSTED_BASE = ["tools/cxx2lean.py (translator of the parse_char / parse state machines and of message_headers::parse and rx_chunk::parse: RL, SL, FL, CH from the current C++ into Lean; the model is proved equal to the translation in ViaProofs/Trans)", "Lean 4.33 kernel", "axioms: propext, Classical.choice, Quot.sound at most",
+TRUSTED_BASE = ["tools/cxx2lean.py + tools/cxx2lean_rx.py (translator of the parse_char / parse state machines, message_headers::parse, rx_chunk::parse, rx_request / rx_response::parse and request_receiver / response_receiver::receive + clear from the current C++ into Lean; the model is proved equal to the translation in ViaProofs/Trans; NOT translated and mapped by name to model functions: the header look-ups of message_headers (find, content_length, is_chunked, expect_continue, close_connection))", "Lean 4.33 kernel", "axioms: propext, Classical.choice, Quot.sound at most",
                 "tools/extract.py (header name tables, reason phrases, method names re-extracted every run)",
                 "rx_driver + via_model driver"]
 ASSUMPTIONS = ["valid components: method upper-case within the limit, target without blanks/line ends, token header names, values "
